@@ -461,6 +461,7 @@ def auditNotes : List String := [
   "DescribeConfigs request ConfigurationKeys: []string nullable in the tree, the element strings inherit the flag (an empty config name is written as a null string, which Kafka's schema does not allow) — reference follows the tree",
   "DescribeClientQuotas response Entries, DescribeUserScramCredentials request Users: nullable 0+ in Kafka, never null in the tree — reference follows the tree",
   "DescribeAcls request: Kafka's message is FLAT; the tree nests the seven filter fields in a struct `Filter ACLFilter` — same bytes in v0-v1, but in the flexible versions v2-v3 the nested struct brings its own (empty) tagged-field buffer: one extra 00 byte before the request's own tag buffer (finding C04-D30)",
+  "LeaveGroup request GroupID is tagged `compact` for v3 although the message is flexible from v4 only: the codec never reads the `compact` option (compactness follows the message's flexibility), the v3 bytes are the canonical non-compact ones — dead metadata (oracle op `lint compact` lists every such field: this one only)",
   "ElectLeaders request TopicPartitions: nullable 0+ in Kafka (null = all partitions), never null in the tree — reference follows the tree",
   "Go has no null string: the empty string stands for null in nullable fields (library convention, part of the reference)"
 ]
